@@ -956,14 +956,16 @@ type inheritedFeatures struct {
 	passOpcArgs bool
 }
 
-func (c *Compiler) buildSchemaTree(m parse.Node, n parse.Node) schema.Tree {
+// buildSchemaTree builds the tree below n (the input or output of an rpc, or
+// a notification); status is the status its nodes inherit.
+func (c *Compiler) buildSchemaTree(m parse.Node, n parse.Node, status schema.Status) schema.Tree {
 	if n == nil {
 		tree, _ := schema.NewTree(nil)
 		return c.extendTree(nil, tree)
 	}
 
 	body := n.ChildrenByType(parse.NodeDataDef)
-	inherited := inheritedFeatures{config: true, status: schema.Current}
+	inherited := inheritedFeatures{config: true, status: status}
 
 	children := c.buildChildren(inherited, m, body)
 	tree, err := schema.NewTree(children)
@@ -981,11 +983,13 @@ func (c *Compiler) BuildModule(module *parse.Module, m parse.Node) schema.Model 
 			// an if-feature of the rpc is not enabled
 			continue
 		}
+		// The nodes of the input and output inherit the status of the rpc
+		rstatus := c.getStatus(r, schema.Current)
 		input := r.ChildByType(parse.NodeInput)
-		inputTree := c.buildSchemaTree(m, input)
+		inputTree := c.buildSchemaTree(m, input, rstatus)
 
 		output := r.ChildByType(parse.NodeOutput)
-		outputTree := c.buildSchemaTree(m, output)
+		outputTree := c.buildSchemaTree(m, output, rstatus)
 
 		rpc := schema.NewRpc(inputTree, outputTree)
 		rpcs[r.Name()] = c.extendRpc(r, rpc)
@@ -997,7 +1001,7 @@ func (c *Compiler) BuildModule(module *parse.Module, m parse.Node) schema.Model 
 			// an if-feature of the notification is not enabled
 			continue
 		}
-		notificationTree := c.buildSchemaTree(m, n)
+		notificationTree := c.buildSchemaTree(m, n, c.getStatus(n, schema.Current))
 		notification := schema.NewNotification(notificationTree)
 		notifications[n.Name()] = c.extendNotification(n, notification)
 	}
